@@ -12,7 +12,6 @@ F = [
  ("C03","F3","fixed",commit("alt attribute"),"known/C03/F3-img-alt-br.json","<br> tag written inside the alt attribute of an image for a hard line break (not well-formed XML under XHTML)"),
  ("C03","F3b","fixed",commit("alt attribute"),"known/C03/F3-img-alt-br-hardwraps.json","<br> tag written inside the alt attribute for a soft break under WithHardWraps"),
  ("C05","F5","fixed",commit("InsertBefore"),"known/C05/F5-table-childcount.json","InsertBefore double-counted children: ChildCount of a table's parent exceeded the linked children"),
- ("C05","F5b","fixed",commit("InsertBefore"),"known/C05/F5-setext-in-list.json","InsertBefore double-counted children (setext heading replacing a paragraph inside a list item)"),
  ("C04","F4","fixed",commit("IsDangerousURL"),"known/C04/F4-autolink.json","<javascript:...> autolink rendered with a live href in safe mode (IsDangerousURL not applied to autolinks)"),
  ("C04","F4b","fixed",commit("IsDangerousURL"),"known/C04/F4-named-ref.json","[a](javascript&colon;x): IsDangerousURL applied before character references were resolved"),
  ("C04","F4c","fixed",commit("IsDangerousURL"),"known/C04/F4-numeric-ref.json","[a](&#106;avascript:x): IsDangerousURL applied before numeric references were resolved"),
@@ -40,6 +39,12 @@ F = [
  ("C20","F14","fixed",commit("renderer panics"),"known/C20/F14-late-kind.json","renderer indexed its dispatch table with a node kind created after initialisation: panic"),
  ("C06","F6","fixed",commit("table cell renderer"),"known/C06/F6-table-style-rerender.json","table cell renderer stored the computed style in the node: second render of the same tree differs"),
  ("C12","F15","fixed",commit("ForceNewline"),"known/C12/F15-forcenewline-append.json","Segment.Value appended a newline into the spare capacity of the caller's source slice"),
+ ("C02","F2","fixed",commit("backslash hard break"),"known/C02/F2-backslash-hard-break.json","a backslash hard line break after an escaped backslash was not recognised"),
+ ("C02","F16","fixed",commit("decimal character"),"known/C02/F16-decimal-reference-in-url.json","[a](&#065;) rendered href=\"5\": decimal reference with a leading zero parsed as octal"),
+ ("C02","F18","fixed",commit("nested list marker"),"known/C02/F18-tab-after-nested-marker.json","a tab after a list marker that is not at column 0 was measured from the wrong column"),
+ ("C02","F7","fixed",commit("HTML block types"),"known/C02/F7-html-block-in-quote.json","HTML block types 2-5 inside a block quote swallowed the marker of the line after their closing line"),
+ ("C02","F19","known","","known/C02/F19-whitespace-only-code-line-in-item.json","a code-block line made only of spaces/tabs inside a list item loses its bytes (list item Continue treats it as a blank line; blank-line bookkeeping depends on that behaviour, so it is recorded, not repaired)"),
+ ("C02","F20","known","","known/C02/F20-escaped-amp-in-url.json","[a](\\&amp;) renders href=\"&amp;\": a backslash-escaped '&' in a destination is unescaped first and then resolved as a character reference (URLEscape makes three passes; a repair needs a single-pass rewrite)"),
 ]
 EXTRA = os.path.join(os.path.dirname(__file__), "known_extra.json")
 out = []
